@@ -70,7 +70,9 @@ Definition value_ok (t : dtype) (nullable : bool) (v : sqlvalue) : bool :=
       | TNumeric _ _, VNumeric b => finite_pos 64 b && is_none (parse_i64 (show_f64 fl b))
       | TVarchar None, VVarchar s => str_ok s
       | TVarchar (Some n), VVarchar s => str_ok s && (blen s <=? n)
-      | TChar n, VCharacter s => str_ok s && all_ascii s && (Z.of_nat (length s) =? n)
+      | TChar n, VCharacter s =>
+          (* exactly n characters; whatever does not fit in the first n BYTES is blank *)
+          str_ok s && (Z.of_nat (length s) =? n) && forallb (Z.eqb 32) (skipn (floor_chars n s) s)
       | TBoolean, VBoolean _ => true
       | TDate, VDate y m d => valid_date_b y m d
       | TTime _, VTime h mi s ns => valid_time_b h mi s ns
